@@ -127,10 +127,11 @@ type SessSpec struct {
 	UnassignedReplicas map[int][]int        `json:"unassigned_replicas,omitempty"` // vb -> replica indexes that are -1 in the cluster map
 	ObserveInit        map[string][2]uint64 `json:"observe_init,omitempty"`        // "vb:replica" -> (uuid selector 0=current branch | explicit, persisted)
 	RMIntervalMs       int                  `json:"rm_interval_ms,omitempty"`
-	GatedVB            int                  `json:"gated_vb,omitempty"`   // C07: the vBucket whose replica reports are scripted (others are fully persisted)
-	Highs              map[int]uint64       `json:"highs,omitempty"`      // scripted vBucket high seqnos (synthetic, no items needed)
-	CollHighs          map[int]uint64       `json:"coll_highs,omitempty"` // scripted high seqno of the configured collections per vBucket
-	Corrupt            []int                `json:"corrupt,omitempty"`    // vBuckets whose stored checkpoint xattr is not valid JSON (couchbase back end)
+	RMWatchMs          int                  `json:"rm_watch_ms,omitempty"` // rollbackMitigation.configWatchInterval (default of the harness: 50 ms)
+	GatedVB            int                  `json:"gated_vb,omitempty"`    // C07: the vBucket whose replica reports are scripted (others are fully persisted)
+	Highs              map[int]uint64       `json:"highs,omitempty"`       // scripted vBucket high seqnos (synthetic, no items needed)
+	CollHighs          map[int]uint64       `json:"coll_highs,omitempty"`  // scripted high seqno of the configured collections per vBucket
+	Corrupt            []int                `json:"corrupt,omitempty"`     // vBuckets whose stored checkpoint xattr is not valid JSON (couchbase back end)
 }
 
 // MetricScrape is one GET /metrics.
@@ -663,6 +664,9 @@ func RunSession(spec *SessSpec) *Trace {
 	}
 	if spec.RollbackMitigation {
 		cfg.RollbackMitigation.Disabled = false
+		if spec.RMWatchMs > 0 {
+			cfg.RollbackMitigation.ConfigWatchInterval = time.Duration(spec.RMWatchMs) * time.Millisecond
+		}
 		if spec.RMIntervalMs > 0 {
 			cfg.RollbackMitigation.Interval = time.Duration(spec.RMIntervalMs) * time.Millisecond
 		}
@@ -1288,6 +1292,37 @@ func RunSession(spec *SessSpec) *Trace {
 			})
 			time.Sleep(150 * time.Millisecond)
 			env.Log.Add(evlog.Rec{K: "ctl.mapchange.known", VB: st.VB, C: uint64(ix)})
+		case "bumpconfig": // the node publishes a newer revision of the (unchanged) cluster map; returns once every polling connection was served it
+			env.Sim.BumpConfig(func() {})
+			rev, ep := env.Sim.Revision()
+			env.Log.Add(evlog.Rec{K: "ctl.bumpconfig", VB: -1, A: uint64(rev), B: uint64(ep)})
+			pollers := map[int]bool{}
+			for _, r := range env.Log.Filter(func(r evlog.Rec) bool { return r.K == "sim.cfg" }) {
+				pollers[r.Cn] = true
+			}
+			if st.Sel == "nowait" {
+				break
+			}
+			onlyDCP := st.Sel == "dcp" // return as soon as a connection of the DCP agent was served the new revision
+			hx.WaitFor(12*time.Second, func() bool {
+				got := map[int]bool{}
+				for _, r := range env.Log.Filter(func(r evlog.Rec) bool { return r.K == "sim.cfg" && int(r.A) == rev && int(r.B) == ep }) {
+					got[r.Cn] = true
+					if onlyDCP && r.C == 1 {
+						return true
+					}
+				}
+				if onlyDCP {
+					return false
+				}
+				for cn := range pollers {
+					if !got[cn] && env.Sim.ConnOpen(cn) {
+						return false
+					}
+				}
+				return len(got) > 0
+			})
+			env.Log.Add(evlog.Rec{K: "ctl.bumpconfig.served", VB: -1})
 		case "observefail": // the replica answers TMPFAIL (Sel "tmpfail"), BUSY ("busy") or normally ("ok") from now on
 			s.pmu.Lock()
 			if s.obsFail == nil {
